@@ -157,9 +157,32 @@ RECURSIVE ShapeOf(_, _)
 ShapeOf(S, p) == [i \in 1..Len(KidsOf(S, p)) |-> ShapeOf(S, KidsOf(S, p)[i])]
 
 ----------------------------------------------------------------------------
+(* C08: filter results.  FilterScan (Nutree.tla) is the operational scan; KeepDecl the declarative
+   characterisation: accepted nodes, whole selected branches, and the ancestors (below the start) of both *)
+Starts(S) == Live(S) \cup {0}
+FVerdicts == {"T", "F", "skip", "skipKeep", "select", "stop"}
+RECURSIVE KeptForest(_, _, _)
+KeptForest(S, K, seq) ==
+   LET ks == SelectSeq(seq, LAMBDA c : c \in K) IN
+   [i \in 1..Len(ks) |-> <<ks[i], KeptForest(S, K, S.kids[ks[i]])>>]
+FilterKeep(S, p, v) == FilterScan(S, p, v).keep
+FilterCalled(S, p, v) == FilterScan(S, p, v).called
+AcceptedBy(S, p, v) ==
+   LET C == SeqSet(FilterCalled(S, p, v)) IN
+   {c \in C : v[c] \in {"T", "skipKeep"}} \cup UNION {{c} \cup Desc(S, c) : c \in {x \in C : v[x] = "select"}}
+KeepDecl(S, p, v) ==
+   LET A == AcceptedBy(S, p, v) IN A \cup UNION {{a \in Desc(S, p) : x \in Desc(S, a)} : x \in A}
+LawFilter(S) == \A v \in [1..S.n -> FVerdicts] : \A p \in Starts(S) :
+   LET K == FilterKeep(S, p, v) c == FilterCalled(S, p, v) IN
+   /\ K = KeepDecl(S, p, v)
+   /\ \A k \in K : S.par[k] = p \/ S.par[k] \in K                    \* closed under parents
+   /\ NoDup(c) /\ SeqSet(c) \subseteq Desc(S, p)
+   /\ \A i \in 1..Len(c) : v[c[i]] = "stop" => i = Len(c)             \* nothing is called after a stop
+   /\ \A x \in SeqSet(c) : \A d \in Desc(S, x) : v[x] \in {"skip", "skipKeep", "select"} => d \notin SeqSet(c)
+
+----------------------------------------------------------------------------
 (* Laws (checked by TLC on every shape of MC_Shapes) *)
 IsPerm(s, A) == Len(s) = Cardinality(A) /\ SeqSet(s) = A
-Starts(S) == Live(S) \cup {0}
 NoSig(S) == [i \in 0..S.n |-> "none"]
 
 LawIterPerm(S) == \A n \in Starts(S), m \in Methods : IsPerm(Iter(S, m, n, FALSE), Desc(S, n))
